@@ -33,6 +33,12 @@ def stepCodec (p : CodecProg) (toks : List String) : CodecProg × String :=
   | ["int.parse", h] => (p, match unhex h with
     | some b => (match parseIntText b with | some i => s!"ok {i}" | none => "err")
     | none => "bad-op")
+  | ["coin.parse", h] => (p, match unhex h with
+    | some b => (match parseCoinText b with | some (d, n) => s!"ok {hx d}:{n}" | none => "err")
+    | none => "bad-op")
+  | ["coin.text", t] => (p, match parseCoinTok t with
+    | some c => if c.amount < 0 then "bad-op" else hx (coinText c.denom c.amount.toNat)
+    | none => "bad-op")
   | ["coin", t] => (p, match parseCoinTok t with | some c => hx (encodeCoin c) | none => "bad-op")
   | ["coin.dec", h] => (p, match unhex h with
     | some b => (match decodeCoin b with | some c => s!"ok {hx c.denom}:{c.amount}" | none => "err")
